@@ -26,7 +26,7 @@ Calls of library functions (names no user scope declares) are outside the model:
 `XE.bcall` and contribute no cell (the tie projects the library's cells away).  Overload resolution by
 argument types is C05's subject; here a name with more than one candidate is `Err.ambiguous`.
 
-The model follows the *repaired* code (three `fix:` commits of C03: the forward gate also covers a
+The model follows the *repaired* code (the transitive gate `unfulfilled_behind` of fix 78a2146, also on the host side; three `fix:` commits of C03: the forward gate also covers a
 function used as a value in its own scope, lambdas, and the requirements of a fulfilling definition).
 -/
 namespace XrayModel.Scope
@@ -163,13 +163,56 @@ def forwardRef (chain : List Scope) (r : FwdReq) : Except Err FwdRef :=
         | none => .error (.panic "forward_ref: index")
         | some f => .ok f
 
-/-- is any of the requirements unfulfilled -/
+/-- the recursion filter's test (:676-680): is any of the requirements an unfulfilled forward declaration of the
+scope the function being defined is declared in (the parent of the body scope `chain.head`) -/
 def anyUnfulfilled (chain : List Scope) : List FwdReq → Except Err Bool
   | [] => .ok false
   | r :: rest =>
     match forwardRef chain r with
     | .error e => .error e
-    | .ok f => if !f.fulfilled then .ok true else anyUnfulfilled chain rest
+    | .ok f =>
+      if !f.fulfilled && (match chain with | cur :: _ => r.height + 1 == cur.height | [] => false) then .ok true
+      else anyUnfulfilled chain rest
+
+/-- one step of `unfulfilled_behind` (:538-559) at the requirement `r`, seen from the head of `chain`: is the forward
+function fulfilled, and the requirements recorded on its cell in the scope that owns it (`owner.cells`) -/
+def behindStep (chain : List Scope) (r : FwdReq) : Except Err (Bool × List FwdReq) :=
+  match chain with
+  | [] => .error (.panic "unfulfilled_behind: no scope")
+  | cur :: _ =>
+    if cur.height < r.height then .error (.panic "unfulfilled_behind: height underflow")
+    else match chain[cur.height - r.height]? with
+      | none => .error (.panic "unfulfilled_behind: ancestor_at_depth unwrap")
+      | some owner => match owner.forwards[r.ref]? with
+        | none => .error (.panic "unfulfilled_behind: index")
+        | some f =>
+          .ok (f.fulfilled, match owner.cells[f.cell]? with
+                            | some .var => owner.cellReqs f.cell
+                            | _ => [])
+
+/-- enough iterations for the loop below: every forward declaration is expanded at most once and pushes at most the
+requirements recorded in its owner's scope -/
+def gateFuel (chain : List Scope) : Nat :=
+  let f := (chain.map (fun s => s.forwards.length)).sum
+  let r := (chain.map (fun s => (s.reqs.map (fun e => e.2.length)).sum)).sum
+  2 + (f + 1) * (r + 2)
+
+/-- the loop of `unfulfilled_behind`: `pending` is a stack (head = top), `seen` the set of visited requirements; the
+unfulfilled forward functions are collected in the order they are met -/
+def unfulfilledBehindAux : Nat → List Scope → List FwdReq → List FwdReq → Except Err (List FwdReq)
+  | 0, _, _, _ => .error .fuel
+  | _ + 1, _, [], _ => .ok []
+  | n + 1, chain, r :: pending, seen =>
+    if r ∈ seen then unfulfilledBehindAux n chain pending seen
+    else match behindStep chain r with
+      | .error e => .error e
+      | .ok (false, _) => (unfulfilledBehindAux n chain pending (r :: seen)).map (fun l => r :: l)
+      | .ok (true, more) => unfulfilledBehindAux n chain (more.reverse ++ pending) (r :: seen)
+
+/-- `unfulfilled_behind`: the unfulfilled forward functions behind a requirement — the forward function itself or, once
+it is implemented, every one its implementation (transitively) depends on -/
+def unfulfilledBehind (chain : List Scope) (r : FwdReq) : Except Err (List FwdReq) :=
+  unfulfilledBehindAux (gateFuel chain) chain [r] []
 
 /-- a candidate: (height of the declaring scope, cell, forward requirements) -/
 abbrev Cand := Nat × Nat × List FwdReq
@@ -223,18 +266,27 @@ def getItem : List Scope → String → Except Err (Option Item)
             else .ok (some (.overloads (mine ++ po)))
           | .ok _ => .ok (some (.overloads mine))
 
-/-- `require_forwards` (:520-538) -/
+/-- the inner loop of `require_forwards`: an unfulfilled function of this scope is the error, the others are recorded -/
+def recordMissing (ps : List Scope) (cur : Scope) : List FwdReq → Except Err Scope
+  | [] => .ok cur
+  | m :: rest =>
+    if m.height = cur.height then
+      match forwardRef (cur :: ps) m with
+      | .error e => .error e
+      | .ok f => .error (.missingForward f.name)
+    else recordMissing ps
+      { cur with fwdReqs := if m ∈ cur.fwdReqs then cur.fwdReqs else cur.fwdReqs ++ [m] } rest
+
+/-- `require_forwards` -/
 def requireForwards (ps : List Scope) (cur : Scope) : List FwdReq → Except Err Scope
   | [] => .ok cur
   | r :: rest =>
-    match forwardRef (cur :: ps) r with
+    match unfulfilledBehind (cur :: ps) r with
     | .error e => .error e
-    | .ok f =>
-      if !f.fulfilled then
-        if r.height = cur.height then .error (.missingForward f.name)
-        else requireForwards ps
-          { cur with fwdReqs := if r ∈ cur.fwdReqs then cur.fwdReqs else cur.fwdReqs ++ [r] } rest
-      else requireForwards ps cur rest
+    | .ok ms =>
+      match recordMissing ps cur ms with
+      | .error e => .error e
+      | .ok cur1 => requireForwards ps cur1 rest
 
 /-- the common tail of the `Ident` arm (:779-789) and of `prepare_return` (:1108-1119): the forward gate,
 then the cell itself (same scope) or a new `Capture{height difference, cell}` -/
@@ -571,15 +623,22 @@ inductive HostGet where
   | panic
   deriving Repr, DecidableEq
 
+def namesOf (root : Scope) : List FwdReq → Option (List String)
+  | [] => some []
+  | m :: rest =>
+    match forwardRef [root] m with
+    | .error _ => none
+    | .ok f => (namesOf root rest).map (fun l => f.name :: l)
+
 def unmetNames (root : Scope) : List FwdReq → Option (List String)
   | [] => some []
   | r :: rest =>
-    match forwardRef [root] r with
+    match unfulfilledBehind [root] r with
     | .error _ => none
-    | .ok f =>
-      match unmetNames root rest with
-      | none => none
-      | some l => if f.fulfilled then some l else some (f.name :: l)
+    | .ok ms =>
+      match namesOf root ms, unmetNames root rest with
+      | some a, some b => some (a ++ b)
+      | _, _ => none
 
 def hostGet (root : Scope) (x : String) : HostGet :=
   match overloadCells x root.funcs with
